@@ -4267,7 +4267,20 @@ impl<'a> Parser<'a> {
         let mut patterns = self.parse_pattern_alternatives()?;
         self.expect('|')?;
         self.skip_ws();
-        let body = self.parse_expr()?;
+        // The body is a full `Exp` parsed by recursion, so `a as $x | b as $y
+        // | ...` nests one parser frame per binding without ever holding a
+        // `parse_primary` frame open -- charge it against the same limit.
+        self.expr_depth += 1;
+        let body = if self.expr_depth > MAX_EXPR_DEPTH {
+            Err(ParseError::new(
+                format!("expression nesting exceeds depth limit of {MAX_EXPR_DEPTH}"),
+                self.pos,
+            ))
+        } else {
+            self.parse_expr()
+        };
+        self.expr_depth -= 1;
+        let body = body?;
 
         // No `?//` alternatives: keep the simpler, pre-existing `Expr::As`
         // shape for a bare `$var` pattern (every other `Expr::As` call site
